@@ -11,6 +11,9 @@ open Hbs Hbs.Pest Hbs.Grammar
 def TagAt (T : Str) (F : Nat) (toks : List (Tok Rule)) : Prop :=
   ∀ (p : Nat) (tail : Str), E F .nonAtomic templateAlt ⟨p, T ++ tail⟩ (.ok ⟨p + T.length, tail⟩ (toks.map (shiftTok p)))
 
+theorem TagAt.weaken' {T : Str} {F F' : Nat} {toks : List (Tok Rule)} (h : TagAt T F toks) (hle : F ≤ F') : TagAt T F' toks :=
+  fun p tail => (h p tail).weaken hle
+
 /-- the text after the tag: whitespace `W`, then `R'` which is empty or starts with a non-whitespace character -/
 structure TextAfterTag (W R' : Str) : Prop where
   ws : ∀ c ∈ W, isPestWs c = true
